@@ -5,30 +5,23 @@ usage: seedmatrix.py <seed.log>   (lines: DETECTED|MISSED seeded/<PROP>/<n>/ (..
 """
 import json, sys, re, os
 WHY_MISSED = {
- "C03/3": "DeferredSort is excluded by the precondition of the ExecuteBatch/stack contracts (segments are assumed sorted); ensureSorted is not under contract",
+ "C06/r4-3": "liveness: the persister waiting on a condition nobody signals after a failed round is not a safety statement of any region (C16-style progress is outside this family)",
+ "C07/r4-2": "iterator.SeekTo has only the 'releases nothing' clause; that the REPLACED lower-level iterator is closed (and so stops pinning a footer and its file) is not stated - startIterator may itself close iterators, so a count of Close calls is not a function of the arguments",
+ "C09/r4-3": "batch.doSort is a trusted contract (sort.Sort); its recursion into nested child batches is assumed - a tree-deep 'sorted' predicate over batches whose kvs arrays may alias is not provable in the encoding",
+ "C15/r4-1": "mergerMain (the merger's error path) is not under contract",
  "C19/3": "same: DeferredSort (readyDeferredSort of child batches) is outside the contracts",
  "C06/3": "the path argument of os.Remove is a string expression; strings are not modelled beyond equality",
- "C07/2": "that a SUCCESSFUL full compaction schedules the superseded file is not decided (compact is `modifies *`; the ghost reclamation state cannot be carried through it)",
  "C03/r2-2": "DeferredSort (readyDeferredSort of nested child batches) is outside the contracts",
  "C05/r2-2": "the order in which openStore tries the data files is not under contract (openStore has only the ReadOnly call-site obligations)",
  "C06/r2-1": "persistBasicSegment (two writer goroutines reporting over a channel) is not under contract",
- "C07/r2-2": "that the recursive writeSegments call for a child uses the parent's includeDeletes is not stated (the tombstone leg of full compaction is not claimed)",
- "C07/r2-3": "per-path balance of the FileRef count in compact is not under contract (only the accounting primitives are)",
- "C11/r2-2": "appendChildStacks is proved for the top level only; its treatment of child stacks (incl. the incarnation filter) is assumed",
- "C15/r2-3": "per-path balance of the footer count in Store.persist is not under contract",
- "C02/r3-1": "per-path balance of the mmap counts in revertToSnapshot (SegmentLocs.AddRef is a trusted contract without an accounting postcondition)",
- "C02/r3-2": "the lower-level wrapper bookkeeping of mergerNotifyPersister (addRef/decRef on stackDirtyBase.lowerLevelSnapshot) is not stated in its region clauses",
- "C02/r3-3": "the order of loadSegments and persistFooter in Store.persist (per-path balance of mmap counts) is not under contract",
  "C08/r3-3": "inside mergeInto (trusted); the bounded stand-in uses an operator that never yields an empty value",
  "C18/r3-2": "which directory entries openStore accepts as data files is not under contract (strings are not modelled)",
- "C18/r3-3": "per-path balance of the footer count in Store.persist is not under contract",
  "C19/r3-2": "collection.get is checked under C10/C03 (the seed is caught there by ensures#chain); it is not tagged C19 because its known finding S7 is not a C19 violation",
- "C20/r3-3": "Store.persistSegments has no contract of its own (its callers' error propagation is proved only from its result)",
 }
 log = sys.argv[1]
 rows = {}
 for ln in open(log):
-    m = re.match(r'(DETECTED|MISSED) seeded/(C\d+)/((?:r[23]-)?\d+)/ ?(.*)', ln.strip())
+    m = re.match(r'(DETECTED|MISSED) seeded/(C\d+)/((?:r[234]-)?\d+)/ ?(.*)', ln.strip())
     if not m:
         continue
     st, p, n, rest = m.groups()
@@ -45,6 +38,8 @@ def order(k):
         rnd = 1
     if n.startswith("r3-"):
         rnd = 2
+    if n.startswith("r4-"):
+        rnd = 3
     return (p, rnd, int(n.split("-")[-1]))
 for (p, n) in sorted(rows, key=order):
     st, rest = rows[(p, n)]
